@@ -28,7 +28,7 @@ Extras == << <<Field("a", 0, Arr(Arr(U(8), 2), 3), 0), Field("b", 1, Arr(Arr(I(8
              (* an enum that is NEVER the type of a field itself, only of array elements / optionals *)
              <<Field("a", 0, Arr(En("Eo"), 2), 1), Field("b", 1, Opt(En("Eo")), 1)>>,
              <<Field("a", 1, Dyn(En("Eo")), 1), Field("b", 0, U(3), 0)>> >>
-EnumO == [name |-> "Eo", items |-> <<[name |-> "Oa", value |-> IntOfNat(0)], [name |-> "Ob", value |-> IntOfNat(2)], [name |-> "Oc", value |-> IntOfNat(5)]>>]
+EnumO == [name |-> "Eo", items |-> <<[name |-> "Oa", value |-> IntOfNat(0)], [name |-> "Ob", value |-> IntOfNat(2)], [name |-> "Oc", value |-> IntOfNat(5)], [name |-> "Od", value |-> IntOfNat(200)]>>]
 NRoot == Len(T1) + Len(Picked) + Len(Extras)
 RName(i) == (CASE i % 5 = 0 -> "R" [] i % 5 = 1 -> "Root" [] i % 5 = 2 -> "MessageNumber" [] i % 5 = 3 -> "ADC" [] OTHER -> "Accel") \o ToString(i)      \* names shorter and longer than a 4-character bus tag
 RootFields(i) == IF i <= Len(T1) THEN <<Field("a", 0, T1[i], 0)>>
